@@ -133,7 +133,10 @@ Section Tree.
         | _ => None
         end
       else if bytes_eqb writer (B "JSONWriteTimeProp") then
-        match v with Some (FTime t) => Some (term, Some (Text.FStr (fmt_rfc3339_utc (vsecs t))), true) | _ => None end
+        match v with
+        | Some (FTime t) => if time_writable t then Some (term, Some (Text.FStr (fmt_rfc3339_utc (vsecs t))), true) else Some (term, None, false)
+        | _ => None
+        end
       else if bytes_eqb writer (B "JSONWriteDurationProp") then
         match v with
         | Some (FDur d) => match fmt_xsd_duration d with Some b => Some (term, Some (Text.FStr b), true) | None => None end
